@@ -2206,3 +2206,29 @@ M("C09-ifndef-searches-the-table-itself", "C09", F_PP,
   expect="R09.12|handle_ifndef_directive|")
 M("C09-builtin-file-macro-not-defined", "C09", F_PP,
   "      manifest_name == \"__FILE__\" ||\n", "", expect="R09.12|is_manifest_defined|built-ins")
+
+# ---- R18.9 (S9-C18: interval width taken before the boundaries are pulled inwards)
+M("C18-width-before-narrowing", "C18", F_PD,
+  "  Wm.f++;\n  Wp.f--;\n  DigitGen(W, Wp, Wp.f - Wm.f, buffer, length, K);",
+  "  const uint64_t delta = Wp.f - Wm.f;\n  Wm.f++;\n  Wp.f--;\n  DigitGen(W, Wp, delta, buffer, length, K);",
+  expect="R18.9|Grisu2|width-after|")
+M("C18-upper-boundary-not-narrowed", "C18", F_PD,
+  "  Wm.f++;\n  Wp.f--;\n  DigitGen(", "  Wm.f++;\n  DigitGen(", expect="R18.9|Grisu2|width-after|upper-boundary-moved-down")
+M("C18-benign-width-in-a-local-after-narrowing", "C18", F_PD,
+  "  Wm.f++;\n  Wp.f--;\n  DigitGen(W, Wp, Wp.f - Wm.f, buffer, length, K);",
+  "  Wm.f += 1;\n  Wp.f -= 1;\n  const uint64_t delta = Wp.f - Wm.f;\n  DigitGen(W, Wp, delta, buffer, length, K);", benign=True)
+
+# ---- R20.13 (S9-C20: the discarded index entered the global-type list)
+M("C20-global-list-gets-the-discarded-index", "C20", F_DBX,
+  "        _global_types.push_back(this_type_index);", "        _global_types.push_back(other_type_index);",
+  expect="R20.13|merge_from|_global_types.push_back")
+
+# ---- R13.7 (S9-C13: the loser's global bit read from the winner)
+F_TY = "src/interrogatedb/interrogateType.cxx"
+M("C13-global-bit-saved-from-the-other-type", "C13", F_TY,
+  "    int old_flags = (_flags & F_global);", "    int old_flags = (other._flags & F_global);",
+  expect="R13.7|merge_with|they-win|")
+M("C13-global-bit-not-restored", "C13", F_TY,
+  "    (*this) = other;\n    _flags |= old_flags;\n", "    (*this) = other;\n", expect="R13.7|merge_with|they-win|")
+M("C13-we-win-drops-other-global", "C13", F_TY,
+  "    _flags |= (other._flags & F_global);\n", "", expect="R13.7|merge_with|we-win|")
